@@ -245,6 +245,54 @@ func pkgVarOf(id *ast.Ident) (string, bool) {
 
 var isFileScope = map[*ast.ValueSpec]bool{}
 
+// structFields: struct types declared in the package being rewritten -> their (direct) field names
+var structFields = map[string]map[string]bool{}
+
+func collectStructFields(files []*ast.File) {
+	structFields = map[string]map[string]bool{}
+	for _, f := range files {
+		for _, d := range f.Decls {
+			gd, ok := d.(*ast.GenDecl)
+			if !ok || gd.Tok != token.TYPE {
+				continue
+			}
+			for _, sp := range gd.Specs {
+				ts := sp.(*ast.TypeSpec)
+				st, ok := ts.Type.(*ast.StructType)
+				if !ok || ts.TypeParams != nil {
+					continue
+				}
+				fields := map[string]bool{}
+				for _, fl := range st.Fields.List {
+					// fields of synchronisation types are accessed through their own (shimmed) methods
+					if se, ok := fl.Type.(*ast.SelectorExpr); ok {
+						if id, ok := se.X.(*ast.Ident); ok && (id.Name == "sync" || id.Name == "atomic") {
+							continue
+						}
+					}
+					for _, n := range fl.Names {
+						fields[n.Name] = true
+					}
+				}
+				structFields[ts.Name.Name] = fields
+			}
+		}
+	}
+}
+
+// ptrStructParam: for `name *T` (receiver or parameter) with T a struct of this package, the field set.
+func ptrStructParam(f *ast.Field) map[string]bool {
+	st, ok := f.Type.(*ast.StarExpr)
+	if !ok {
+		return nil
+	}
+	id, ok := st.X.(*ast.Ident)
+	if !ok {
+		return nil
+	}
+	return structFields[id.Name]
+}
+
 type fileCtx struct {
 	file      *ast.File
 	pkgNames  map[string]string // local name -> import path, for the redirected packages
@@ -255,6 +303,10 @@ type fileCtx struct {
 	decls     map[*ast.Ident]bool    // declaring occurrences (never rewritten)
 	pkgWrites map[*ast.Ident]bool    // occurrences of package-level variables in write position
 	skip      map[*ast.Ident]bool    // identifiers that are not variable references (field names, declarations)
+	// struct fields reached through a pointer receiver / parameter `p *T` (T a struct of the package):
+	// the selector expressions p.f to stamp, and those in write position
+	fieldSel   map[*ast.SelectorExpr]string
+	fieldWrite map[*ast.SelectorExpr]bool
 }
 
 // analyse finds, per function containing a `go` closure, the closure's free variables declared in
@@ -339,6 +391,80 @@ func (c *fileCtx) analyse() {
 		return true
 	})
 
+	c.fieldSel, c.fieldWrite = map[*ast.SelectorExpr]string{}, map[*ast.SelectorExpr]bool{}
+	for _, d := range c.file.Decls {
+		fd, ok := d.(*ast.FuncDecl)
+		if !ok || fd.Body == nil {
+			continue
+		}
+		objs := map[*ast.Object]map[string]bool{}
+		typeOf := map[*ast.Object]string{}
+		lists := []*ast.FieldList{fd.Recv, fd.Type.Params}
+		for _, l := range lists {
+			if l == nil {
+				continue
+			}
+			for _, f := range l.List {
+				if fields := ptrStructParam(f); fields != nil {
+					for _, n := range f.Names {
+						if n.Obj != nil {
+							objs[n.Obj] = fields
+							typeOf[n.Obj] = f.Type.(*ast.StarExpr).X.(*ast.Ident).Name
+						}
+					}
+				}
+			}
+		}
+		if len(objs) == 0 {
+			continue
+		}
+		// the selector p.f at the bottom of a chain (p.f, p.f[i], p.f.g ...)
+		var bottom func(e ast.Expr) *ast.SelectorExpr
+		bottom = func(e ast.Expr) *ast.SelectorExpr {
+			switch v := e.(type) {
+			case *ast.SelectorExpr:
+				if id, ok := v.X.(*ast.Ident); ok && id.Obj != nil && objs[id.Obj] != nil && objs[id.Obj][v.Sel.Name] {
+					return v
+				}
+				return bottom(v.X)
+			case *ast.IndexExpr:
+				return bottom(v.X)
+			case *ast.ParenExpr:
+				return bottom(v.X)
+			case *ast.StarExpr:
+				return bottom(v.X)
+			}
+			return nil
+		}
+		ast.Inspect(fd.Body, func(n ast.Node) bool {
+			switch x := n.(type) {
+			case *ast.SelectorExpr:
+				if id, ok := x.X.(*ast.Ident); ok && id.Obj != nil && objs[id.Obj] != nil && objs[id.Obj][x.Sel.Name] {
+					p := fset.Position(x.Pos())
+					c.fieldSel[x] = fmt.Sprintf("%s.%s@%s:%d", typeOf[id.Obj], x.Sel.Name, filepath.Base(p.Filename), p.Line)
+				}
+			case *ast.AssignStmt:
+				if x.Tok != token.DEFINE {
+					for _, l := range x.Lhs {
+						if se := bottom(l); se != nil {
+							c.fieldWrite[se] = true
+						}
+					}
+				}
+			case *ast.IncDecStmt:
+				if se := bottom(x.X); se != nil {
+					c.fieldWrite[se] = true
+				}
+			case *ast.UnaryExpr:
+				if x.Op == token.AND {
+					if se := bottom(x.X); se != nil {
+						c.fieldWrite[se] = true
+					}
+				}
+			}
+			return true
+		})
+	}
 	for _, d := range c.file.Decls {
 		fd, ok := d.(*ast.FuncDecl)
 		if !ok || fd.Body == nil {
@@ -470,6 +596,14 @@ func (c *fileCtx) rewrite() {
 			return c.rewriteSelect(x, &tmp)
 
 		case *ast.SelectorExpr:
+			if sid, ok := c.fieldSel[x]; ok {
+				c.usedShim = true
+				addr := &ast.UnaryExpr{Op: token.AND, X: x}
+				if c.fieldWrite[x] {
+					return &ast.ParenExpr{X: &ast.StarExpr{X: call("W", addr, strLit(sid+" (written)"))}}
+				}
+				return &ast.ParenExpr{X: &ast.StarExpr{X: call("R", addr, strLit(sid+" (read)"))}}
+			}
 			id, ok := x.X.(*ast.Ident)
 			if !ok || id.Obj != nil { // a local object shadows the package name
 				return n
@@ -864,6 +998,7 @@ func rewritePackage(repo, rel, out string, overlay map[string]string) []string {
 			}
 		}
 		collectPkgVars(all)
+		collectStructFields(all)
 		if dropped := selfSynchronised(all); len(dropped) > 0 {
 			sort.Strings(dropped)
 			report = append(report, fmt.Sprintf("%s: self-synchronised package variables left to the -race pass: %v", rel, dropped))
